@@ -67,7 +67,7 @@ check("C10", "fault_enumeration",
       "exhaustive fault and crash-point enumeration (in-process faults, kill at every syscall, crash-state model over the traced history)",
       "DESIGN.md §5 C10", "mc")
 check("C15", "fault_enumeration",
-      "Every meaningful (exit cause x connection phase) cell - 14 causes (close, drop, cut, text, bad header, trailing bytes, inline/off-reader/connect-hook panics, cancel, abort, drain) x 5 phases (idle, inline parked, off-reader parked, outbound queue full, during connect hooks) - on all serve_connection* entry points over in-memory streams, all ordered pairs and triples of cells on 2-3 connections, N same-cell connections, and the built-in accept loops (serve_listener, graceful drain, failed handshakes) over loopback TCP; an event log of all hooks, handlers and registry samples is checked per connection. The registry clause under concurrent connections is decided by a loom part: 2-3 overlapping connection lifecycles (insert / alias / remove exactly as with_peer_registry issues them) on the real PeerRegistry, every interleaving for 2 lifecycles and preemption bound 2 (quick) / 3 (thorough) for 3, each connection checking from its own thread that it and its aliases are present while connected and absent afterwards.",
+      "Every meaningful (exit cause x connection phase) cell - 14 causes (close, drop, cut, text, bad header, trailing bytes, inline/off-reader/connect-hook panics, cancel, abort, drain) x 5 phases (idle, inline parked, off-reader parked, outbound queue full, during connect hooks) - on all serve_connection* entry points over in-memory streams (streams adopted through adopt_upgraded and, with the first 0 / 1 / 2 / one-frame / one-and-a-half-frame bytes handed over as already read, adopt_upgraded_partially_read), all ordered pairs and triples of cells on 2-3 connections, N same-cell connections, and over loopback TCP the built-in accept loops (serve_listener, serve_listener_with_shutdown with the future resolving while 1-3 connections are alive in every phase, graceful drain, the address-taking twins serve / serve_with_shutdown / serve_with_graceful_drain, failed handshakes, a connection attempt after the loop returned) and the six co-hosting accept helpers each followed by its serve_connection* call; a request the reader rejects by itself is pipelined ahead of the first request; an event log of all hooks, handlers and registry samples is checked per connection. The registry clause under concurrent connections is decided by a loom part: 2-3 overlapping connection lifecycles (insert / alias / remove exactly as with_peer_registry issues them) on the real PeerRegistry, every interleaving for 2 lifecycles and preemption bound 2 (quick) / 3 (thorough) for 3, each connection checking from its own thread that it and its aliases are present while connected and absent afterwards.",
       "tokio multi-thread scheduler interleavings of whole connections are not enumerated (the registry calls they make are, under loom); the drain deadline ZERO is one timer tick.",
       "exhaustive exit-cause x phase enumeration against running connections with an event-log oracle, plus stateless model checking (loom DPOR) of overlapping connection lifecycles on the real registry",
       "DESIGN.md §5 C15", "mc+lm")
